@@ -501,6 +501,11 @@ Definition hop_of_obs (o : obs) : option hop :=
       | Some t, Some d => Some (HPutTtl k vid t d)
       | _, _ => None
       end
+  | L [I 12; I k; I vid; L ttls; L ds] =>          (* negative answer: CNAME TTLs, SOA TTL, SOA minimum *)
+      match zs_of_obs ttls, zs_of_obs ds with
+      | Some t, Some d => Some (HPutTtl k vid t d)
+      | _, _ => None
+      end
   | L [I 3; I k; L ds] => option_map (HCall (Flush (Some k))) (zs_of_obs ds)
   | L [I 4; L ds] => option_map (HCall (Flush None)) (zs_of_obs ds)
   | L [I 5; I m; L ds] => option_map (HCall (SetMax m)) (zs_of_obs ds)
